@@ -228,6 +228,21 @@ func dethunkMapDepthFirst(m map[string]interface{}) {
 	}
 }
 
+// dethunkValueDepthFirst forces one completed field value (and everything
+// below it) before the caller moves on to the next field.
+func dethunkValueDepthFirst(v interface{}) interface{} {
+	if f, ok := v.(func() interface{}); ok {
+		v = f()
+	}
+	switch val := v.(type) {
+	case map[string]interface{}:
+		dethunkMapDepthFirst(val)
+	case []interface{}:
+		dethunkListDepthFirst(val)
+	}
+	return v
+}
+
 func dethunkListDepthFirst(list []interface{}) {
 	for i, v := range list {
 		if f, ok := v.(func() interface{}); ok {
